@@ -383,11 +383,11 @@ def profiles(tier, light=False):
     else:
         for counting in (False, True):
             P.append(dict(fp={"a": 2, "b": 3, "c": 4, "e": 2, "z": 0}, altvals=[0, 1, 3], bs=1, ms=3, counting=counting, cap0s=[1, 2], autos=[False, True],
-                          maxcap=8, maxdepth=6, maxout=2, nparts=8))
-            P.append(dict(fp={"a": 1, "b": 2, "c": 3, "d": 5, "e": 6}, altvals=[0, 1, 2, 3], bs=2, ms=2, counting=counting, cap0s=[1, 2], autos=[False, True],
-                          maxcap=4, maxdepth=6, maxout=2, nparts=16))
-            P.append(dict(fp={"a": 1, "b": 2, "c": 3, "d": 4, "e": 5, "f": 7, "g": 9}, altvals=[0, 1], bs=3, ms=2, counting=counting, cap0s=[1], autos=[False, True],
-                          maxcap=2, maxdepth=8, maxout=1, nparts=8, er=0.003))
+                          maxcap=8, maxdepth=5 if counting else 6, maxout=2, nparts=8))
+            P.append(dict(fp={"a": 1, "b": 2, "c": 3, "d": 5, "e": 5}, altvals=[0, 1, 3], bs=2, ms=2, counting=counting, cap0s=[1, 2], autos=[False, True],
+                          maxcap=4, maxdepth=5, maxout=1 if counting else 2, nparts=16))
+            P.append(dict(fp={"a": 1, "b": 2, "c": 3, "d": 4, "e": 5, "f": 7}, altvals=[0, 1], bs=3, ms=2, counting=counting, cap0s=[1], autos=[False, True],
+                          maxcap=2, maxdepth=5, maxout=1, nparts=8, er=0.003))
             P.append(dict(fp={"a": 1, "b": 2, "c": 3}, altvals=[0, 1], bs=8, ms=2, counting=counting, cap0s=[1], autos=[True],
                           maxcap=2, maxdepth=4, maxout=2, nparts=1, er=0.001))
     if light and tier == "quick":
